@@ -10,7 +10,10 @@ for n in names:
     d = os.path.join(ROOT, 'seeded', n)
     if not os.path.exists(os.path.join(d, 'patch.diff')):
         continue
-    prop = json.load(open(os.path.join(d, 'meta.json')))['property']
+    meta = json.load(open(os.path.join(d, 'meta.json')))
+    if str(meta.get('status', '')).startswith('obsolete'):
+        print('%-36s skipped: %s' % (n, meta['status'][:80])); continue
+    prop = meta['property']
     a = subprocess.run(['git', '-C', '/repo', 'apply', os.path.join(d, 'patch.diff')], capture_output=True, text=True)
     if a.returncode != 0:
         print(n, 'DOES NOT APPLY', a.stderr[:200]); miss.append(n); continue
